@@ -426,10 +426,23 @@ def gen_invocation(rng, world_state):
                                       "d h M"])
             groups.append(["--print-format", spec["dpf"]])
         items = [p["text"] for p in spec["points"]]
-        if rng.random() < 0.1:
+        r3 = rng.random()
+        if r3 < 0.1:
             step["stdin"] = "\n".join(items) + rng.choice(["", "\n"])
             items = ["-"]
             spec["via_stdin"] = True
+        elif r3 < 0.25:
+            # "ref" stands for one of the two points (documented usage 2.3-2.5)
+            which = rng.randrange(2)
+            ref_text = items[which]
+            items[which] = "ref"
+            if rng.random() < 0.5 or ref_text.startswith("-"):
+                groups.append(["--ref=" + ref_text])
+                if rng.random() < 0.5:
+                    env["ref"] = "1999-12-31T00:00:00Z"
+            else:
+                env["ref"] = ref_text
+            spec["via_ref"] = which
         step["spec"] = spec
         step["argv"] = assemble(rng, items, groups)
         return step
@@ -454,8 +467,13 @@ def gen_invocation(rng, world_state):
         step["argv"] = assemble(rng, [item], groups)
         return step
     if kind == "rec":
-        n = gen_notation(rng, need_time=True, allow_reduced=False,
-                         need_zone=True)
+        if rng.random() < 0.3:
+            # any notation, as in the documented R/2020/P1Y: decided by
+            # comparing with the library iterated directly
+            n = gen_notation(rng)
+        else:
+            n = gen_notation(rng, need_time=True, allow_reduced=False,
+                             need_zone=True)
         if n["time"] in ("hm_dec", "h_dec"):
             n["time"] = "hms"
         w = gen_written(rng, mode, n, p_invalid=0.02)
@@ -471,6 +489,8 @@ def gen_invocation(rng, world_state):
             itext, ius = rng.choice(["P1M", "P1Y", "P1M1D", "P3M"]), None
         reps = rng.choice([None, None, 1, 2, 3, 5, 12, 30])
         form = rng.choice([3, 3, 3, 4, 1])
+        if n["time"] is None or n["zone"] is None:
+            form = rng.choice([3, 3, 4])
         spec = {"kind": "rec", "notation": n, "written": w, "form": form,
                 "reps": reps, "interval_text": itext, "interval_us": ius,
                 "utc": utc, "cal": cal_opt}
@@ -1253,7 +1273,8 @@ class Sim(object):
         ius = spec.get("interval_us")
         if spec["form"] == 1:
             ius = step.get("form1_interval_us")
-        if ius is None or spec.get("pf"):
+        if ius is None or spec.get("pf") or n["time"] is None or (
+                n["zone"] is None):
             return
         off = w["off"]
         t0 = cm.written_instant_us(w, mode, off)
